@@ -304,7 +304,7 @@ def graph_case(rng, nmax, family, force_name=None):
     edge_colors = None
     if entries and rng.random() < 0.25 and dtype != 'bool':
         labelled = rng.sample(entries, rng.randint(1, len(entries)))
-        o['edge_labels'] = [[i, j, rng.randint(0, 7)] for (i, j) in labelled]
+        o['edge_labels'] = label_list(rng, labelled)
         edge_colors = 'labelled'
     args = dict(m=None if family == 'nomatrix' else dict(shape=[n, n], coo=[[i, j, w] for i, j, w in wE], dtype=dtype, fmt='csr'),
                 position=positions, names=wrap_names(rng, names), opts=o, alias=rng.random() < 0.15,
@@ -387,7 +387,7 @@ def bigraph_case(rng, nmax, family, force_name=None):
         o['edge_color'] = rng.choice(COLORS)
     if rng.random() < 0.25:
         labelled = rng.sample(E, rng.randint(1, len(E)))
-        o['edge_labels'] = [[i, j, rng.randint(0, 7)] for (i, j) in labelled]
+        o['edge_labels'] = label_list(rng, labelled)
     args = dict(m=dict(shape=[r, c], coo=[[i, j, w] for i, j, w in wE], dtype=dtype, fmt='csr'),
                 names_row=wrap_names(rng, names_row), names_col=wrap_names(rng, names_col), opts=o,
                 alias=rng.random() < 0.15, file=rng.random() < 0.3)
@@ -559,6 +559,16 @@ def all_names(meta):
     if meta['kind'] == 'bigraph':
         return (meta['names_row'] or []) + (meta['names_col'] or [])
     return meta['names'] or []
+
+
+
+def label_list(rng, labelled):
+    """edge_labels entries for the chosen stored entries: labels beyond the number of standard colours (10, 20: colour 0 again),
+    and some entries listed several times (the last label of an entry is the one drawn, and the entry is drawn once)."""
+    out = [[i, j, rng.choice([0, 0, 10, 20, rng.randint(0, 7), rng.randint(0, 27)])] for (i, j) in labelled]
+    if rng.random() < 0.4:
+        out += [[i, j, rng.choice([0, 3, 10, rng.randint(0, 27)])] for (i, j) in rng.sample(labelled, rng.randint(1, len(labelled)))]
+    return out
 
 
 def n_markers(meta, args, std_colors):
